@@ -126,7 +126,9 @@ class Gen(object):
         for p in ps:
             ks = sorted(st['inv'].get(p, {})) or [self.klass(st)]
             if r.random() < 0.08:
-                ks = ks + [self.klass(st, known=0.5)]
+                k = self.klass(st, known=0.5)
+                if k not in ks:
+                    ks = ks + [k]
             m = r.randint(1, min(2, len(ks)))
             res = []
             for k in r.sample(ks, m):
@@ -446,4 +448,37 @@ class Gen(object):
         w.update(self.weights)
         ops = sorted(k for k in w if not k.startswith('_') and w[k] > 0)
         op = r.choices(ops, [w[k] for k in ops])[0]
-        return getattr(self, op)(st)
+        return unique_keys(getattr(self, op)(st))
+
+
+def _last_wins(items, key):
+    out = {}
+    for x in items:
+        out.pop(x[key], None)
+        out[x[key]] = x
+    return list(out.values())
+
+
+def unique_keys(req):
+    """A JSON object cannot name a key twice: lists that are rendered as
+    objects (resources of a provider, allocations of a consumer, inventories
+    of a provider) keep one item per key, as the rendered request does."""
+    def fix_allocs(allocs):
+        allocs = _last_wins(allocs, 'u')
+        for a in allocs:
+            a['res'] = _last_wins(a['res'], 'rc')
+        return allocs
+    if 'allocs' in req:
+        req['allocs'] = fix_allocs(req['allocs'])
+    for e in req.get('entries', []):
+        e['allocs'] = fix_allocs(e['allocs'])
+    if req.get('op') == 'alloc_post':
+        req['entries'] = _last_wins(req['entries'], 'c')
+    if req.get('op') == 'inv_put_all':
+        req['invs'] = _last_wins(req['invs'], 'rc')
+    if req.get('op') == 'reshape':
+        req['invs'] = _last_wins(req['invs'], 'u')
+        for p in req['invs']:
+            p['invs'] = _last_wins(p['invs'], 'rc')
+        req['entries'] = _last_wins(req['entries'], 'c')
+    return req
